@@ -14,6 +14,9 @@ base, letters = '/tmp/mut', ('a', 'b')
 if args and args[0] == '--round2':
     base, letters = '/tmp/mut2', ('c', 'd')
     args = args[1:]
+elif args and args[0] == '--round3':
+    base, letters = '/tmp/mut3', ('e', 'f', 'g')
+    args = args[1:]
 for pid in args:
     for x in letters:
         src = f'{base}/{pid}/_out/{x}'
